@@ -473,10 +473,11 @@ class ConstGroupVerifier:
         self.output_index = output_index
 
     def increment(self, key, value):
-        old_value = self.const_values.get(key)
-        if old_value is None:
+        if key not in self.const_values:
             self.const_values[key] = value
-        elif old_value != value:
+            return
+        old_value = self.const_values[key]
+        if old_value != value:
             raise RbqlRuntimeError('Invalid aggregate expression: non-constant values in output column {}. E.g. "{}" and "{}"'.format(self.output_index + 1, old_value, value)) # UT JSON
 
     def get_final(self, key):
